@@ -300,9 +300,11 @@ def handshake(m, t, tier):
 
 
 # ------------------------------------------------------------------ crash points (C36): a party stops sending after its k-th message
-def crash_points(m, t, tier, no_prss=False, only=None):
+def crash_points(m, t, tier, no_prss=False, only=None, mode='lost'):
     """program: c = a0*a1 + a2 (input by all, multiplication, resharing, output).  Party j's messages with index >= k are never delivered
-    (it crashed after k sends).  Every OTHER party must either obtain the correct value or never complete; never a wrong value."""
+    (it crashed after k sends).  Every OTHER party must either obtain the correct value or never complete; never a wrong value.
+    mode 'lost': the messages are lost silently.  mode 'eof': the crash is noticed - at that moment every other party deregisters the connection
+    (Runtime.unset_protocol: parties[j].protocol = None), as after a clean EOF; exceptions in a party then count as "no output"."""
     func = 'mpyc.runtime.Runtime.output/_reshare/input (crash of one party)'
     t0 = time.time()
     from sx.mp import BLOCKED
@@ -328,11 +330,15 @@ def crash_points(m, t, tier, no_prss=False, only=None):
                     orig = pr.send
                     def send(pc, payload, orig=orig):
                         sent_by_j[0] += 1
-                        if sent_by_j[0] > k: return            # crashed: message lost
+                        if sent_by_j[0] > k:            # crashed: message lost
+                            if mode == 'eof' and j >= 0:
+                                for i2, rt2 in enumerate(rts):
+                                    if i2 != j: rt2.parties[j].protocol = None
+                            return
                         return orig(pc, payload)
                     pr.send = send
         try:
-            return mp.run_all(loop, rts, prog, allow_blocked=True), sent_by_j[0]
+            return mp.run_all(loop, rts, prog, allow_blocked=('continue' if mode == 'eof' else True)), sent_by_j[0]
         finally:
             loop.close()
     # number of messages a party sends in a complete run
@@ -349,9 +355,9 @@ def crash_points(m, t, tier, no_prss=False, only=None):
             n += 1
             res, _ = run(j, k)
             for i, r in enumerate(res):
-                if i == j or r == BLOCKED: continue
+                if i == j or r == BLOCKED or (isinstance(r, tuple) and r and r[0] == 'EXC'): continue
                 if r != expect:
                     bad = f'party {j} crashed after {k} of {total} sends: surviving party {i} outputs {r!r} instead of {expect}'; badcase = (j, k); break
             if bad: break
-    return [_ob(f'crash:no-wrong-output[m={m},t={t},prss={not no_prss}]', func, t0, f'(m,t)=({m},{t}); one party crashing after each of its message sends', bad,
-                evals=max(1, n), key='crash:no-wrong-output', replay=_replay('crash_points', (m, t, tier, no_prss, badcase)) if badcase else None)]
+    return [_ob(f'crash:no-wrong-output[m={m},t={t},prss={not no_prss},{mode}]', func, t0, f'(m,t)=({m},{t}); one party crashing after each of its message sends ({"connection deregistered by the others" if mode == "eof" else "messages lost silently"})', bad,
+                evals=max(1, n), key='crash:no-wrong-output', replay=_replay('crash_points', (m, t, tier, no_prss, badcase, mode)) if badcase else None)]
